@@ -58,6 +58,9 @@ def _case(draw, big=False):
     extra = 1 if big else 0
     if group == "plain":
         case = draw(gen.rec_case(max_obj=5 + extra, max_sp=5 + extra, costs="coherent", labelled=False))
+    elif group == "ordered" and gen.chance(draw, 1, 6):
+        # five families under few precedence constraints: dozens of root orders to explore
+        case = draw(gen.many_orders_case())
     elif group == "ordered":
         case = draw(gen.rec_case(max_obj=5 + extra, max_sp=4 + extra, costs="coherent", labelled=True, max_fam=4, prescribed_root=True))
     else:
